@@ -68,6 +68,7 @@ fn new_node<'gc>(mc: &Mutation<'gc>, gid: u32) -> NodeGc<'gc> {
                 s: [Lock::new(None), Lock::new(None)],
                 w: Lock::new(None),
                 leaf: Lock::new(None),
+                wl: Lock::new(None),
                 cell: Lock::new(None),
             },
         )
@@ -605,6 +606,67 @@ impl World {
                 })?;
                 self.sh.objs[op.a as usize].leaf = None;
             }
+            K::LeafBarrier => {
+                if credit_path(op.a) {
+                    self.credit_calls += 1;
+                }
+                self.with_mutate(|w, mc, _, m| {
+                    let l = Gc::erase(w.node(m, op.b).leaf.get().unwrap());
+                    let c = w.node(m, op.c);
+                    match op.a {
+                        1 => mc.backward_barrier(l, Some(Gc::erase(c))),
+                        2 => mc.backward_barrier(l, None),
+                        3 => mc.forward_barrier(Some(l), Gc::erase(c)),
+                        5 => mc.backward_barrier_weak(l, GcWeak::erase(Gc::downgrade(c))),
+                        _ => mc.forward_barrier_weak(Some(l), GcWeak::erase(Gc::downgrade(c))),
+                    }
+                    Ok(())
+                })?;
+            }
+            K::SetWeakLeaf => {
+                let t = self.sh.objs[op.b as usize].leaf.expect("leaf");
+                self.with_mutate(|w, mc, _, m| {
+                    let l = w.node(m, op.b).leaf.get().unwrap();
+                    unlock!(Gc::write(mc, w.node(m, op.a)), Node, wl).set(Some(Gc::downgrade(l)));
+                    Ok(())
+                })?;
+                self.sh.objs[op.a as usize].wl = Some(t);
+            }
+            K::ClearWeakLeaf => {
+                self.with_mutate(|w, mc, _, m| {
+                    unlock!(Gc::write(mc, w.node(m, op.a)), Node, wl).set(None);
+                    Ok(())
+                })?;
+                self.sh.objs[op.a as usize].wl = None;
+            }
+            K::UpLeaf => {
+                let t = self.sh.objs[op.a as usize].wl.expect("weak leaf");
+                let sweeping = self.phase() == CollectionPhase::Sweeping;
+                let tdropped = self.sh.objs[t as usize].dropped;
+                let treach = self.sh.reach_mask()[t as usize];
+                let ok = self.with_mutate(|w, mc, _, m| match w.node(m, op.a).wl.get().unwrap().upgrade(mc) {
+                    Some(g) => {
+                        unlock!(Gc::write(mc, w.node(m, op.b)), Node, leaf).set(Some(g));
+                        Ok(true)
+                    }
+                    None => Ok(false),
+                })?;
+                let Caught::Done(ok) = ok else { viol!("api.panic", "unexpected injected panic") };
+                if ok {
+                    self.cov.bump("upgrade_store_leaf");
+                    if tdropped {
+                        viol!("c05.upgrade_dropped", "upgrade returned a pointer to destructed leaf {t}");
+                    }
+                    self.sh.objs[op.b as usize].leaf = Some(t);
+                } else {
+                    if treach {
+                        viol!("c05.upgrade_reachable_failed", "upgrade failed for strongly reachable leaf {t}");
+                    }
+                    if !tdropped && !sweeping {
+                        viol!("c05.upgrade_spurious", "upgrade failed for undestructed leaf {t} outside Sweeping");
+                    }
+                }
+            }
             // ------------------------------------------------------------------ dynamic roots
             K::Stash => {
                 let r = self.with_mutate(|w, mc, root, m| {
@@ -688,7 +750,7 @@ impl World {
                 self.sh.objs[op.b as usize].s[op.c as usize] = Some(t);
             }
             // ------------------------------------------------------------------ finalization
-            K::FinQuery | K::FinRes | K::FinResStore | K::FinGcRes | K::PFin => return self.finalize(op),
+            K::FinQuery | K::FinRes | K::FinResStore | K::FinGcRes | K::PFin | K::FinResLeaf => return self.finalize(op),
             // ------------------------------------------------------------------ collector
             K::CycleStep => {
                 self.norm(op.a);
@@ -894,6 +956,32 @@ impl World {
                                 st.push((cid, c));
                             }
                         }
+                    }
+                }
+                // weak pointers to non-tracing leaves
+                for (id, o) in m.iter().enumerate() {
+                    let Some(Obj::Node(g)) = o else { continue };
+                    let Some(wk) = g.wl.get() else { continue };
+                    let t = this.sh.objs[id].wl.unwrap();
+                    let tr = reach[t as usize];
+                    if tr && wk.is_dead(fc) {
+                        viol!("c07.weak_reachable_dead", "weak pointer to strongly reachable leaf {t} reports is_dead");
+                    }
+                    if !mutated && wk.is_dead(fc) != !tr {
+                        viol!("c07.exact", "no mutation since marking began: leaf {t} reachable={tr} but is_dead={}", wk.is_dead(fc));
+                    }
+                }
+                if op.k == K::FinResLeaf {
+                    let wk = this.node(&m, op.a).wl.get().unwrap();
+                    let t = this.sh.objs[op.a as usize].wl.unwrap();
+                    let td = this.sh.objs[t as usize].dropped;
+                    was_dead = wk.is_dead(fc);
+                    let res = wk.resurrect(fc);
+                    if res.is_some() == td {
+                        viol!("c07.resurrect_result", "resurrect returned {} for a leaf whose destructor has{} run", if res.is_some() { "Some" } else { "None" }, if td { "" } else { " not" });
+                    }
+                    if res.is_some() {
+                        newly = Some(t);
                     }
                 }
                 match op.k {
